@@ -1,5 +1,6 @@
 import DepLogic.Proofs.MarkerSingles
 import DepLogic.Proofs.FromSpec
+import DepLogic.Proofs.LexNorm
 /-
   C02 — marker `&` and `|` are sound.
 
@@ -13,14 +14,14 @@ import DepLogic.Proofs.FromSpec
 
   The theorems take `FromSpecOk` (from_specifier renders a specifier as an atom that means it) and
   `PyMergeOk` (python_version / python_full_version merge) as parameters; both are THEOREMS
-  (Proofs/FromSpec.lean: `fromSpecOk_of_lex`, `pyMergeOk_of_fromSpec`).  That the operand text
-  from_specifier writes is read back as the clause it was written from is proved down to characters
-  (`lexPrint_final`, Proofs/LexLemmas.lean: `int(str(n)) = n`, `Version(".".join(...))`, operator
-  and `.*` lexing); the one character-level fact still assumed is `LexNormOk` (the string surgery of
-  `_normalize_python_version_specifier` computes the structured normalisation).  So the `*_lex`
-  theorems at the end of this file state C02 with no other assumption than that, an environment
-  that binds its variables PEP 508-style (`EnvTotal`), and atoms of the well-defined classes
-  (`Good`).  The restriction to specifier views over plain final releases (`C06.Nice`, inside
+  (Proofs/FromSpec.lean: `fromSpecOk_of_lex`, `pyMergeOk_of_fromSpec`), and so are the
+  character-level facts they rest on: that the operand text from_specifier writes is read back as
+  the clause it was written from (`lexPrint_final`, Proofs/LexLemmas.lean: `int(str(n)) = n`,
+  `Version(".".join(...))`, operator and `.*` lexing) and that the string surgery of
+  `_normalize_python_version_specifier` computes the structured normalisation (`lexNorm_final`,
+  Proofs/LexNorm.lean).  So the `*_final` theorems at the end of this file state C02 with no
+  assumption other than an environment that binds its variables PEP 508-style (`EnvTotal`) and
+  atoms of the well-defined classes (`Good`).  The restriction to specifier views over plain final releases (`C06.Nice`, inside
   `Good`) is forced in one respect: with post-release bounds the property is false of the code
   (known finding D4a).
 -/
@@ -61,23 +62,23 @@ theorem rewriting_sound (env : Env) (he : EnvTotal env) (hF : FromSpecOk env) (h
 
 /-! ### with the bridge hypotheses discharged -/
 
-/-- the one character-level assumption left -/
-structure Lex : Prop where
-  norm : LexNormOk
-
-theorem bridge (env : Env) (he : EnvTotal env) (hx : Lex) : FromSpecOk env ∧ PyMergeOk env :=
-  let hF := fromSpecOk_of_lex env he hx.norm
+/-- `from_specifier` and the python_version / python_full_version merge are sound: no assumption
+    beyond the environment binding its variables -/
+theorem bridge (env : Env) (he : EnvTotal env) : FromSpecOk env ∧ PyMergeOk env :=
+  let hF := fromSpecOk_of_lex env he lexNorm_final
   ⟨hF, pyMergeOk_of_fromSpec env he hF⟩
 
-theorem and_sound_lex (env : Env) (he : EnvTotal env) (hx : Lex) (fuel : Nat) (a b : M)
+/-- **C02, `&`**: for every fuel, every PEP 508 environment and all markers over good atoms -/
+theorem and_sound_final (env : Env) (he : EnvTotal env) (fuel : Nat) (a b : M)
     (ha : GAll (Good env) a) (hb : GAll (Good env) b) :
     GAll (Good env) (M.and fuel a b) ∧ sem env (M.and fuel a b) = (sem env a && sem env b) :=
-  and_sound env he (bridge env he hx).1 (bridge env he hx).2 fuel a b ha hb
+  and_sound env he (bridge env he).1 (bridge env he).2 fuel a b ha hb
 
-theorem or_sound_lex (env : Env) (he : EnvTotal env) (hx : Lex) (fuel : Nat) (a b : M)
+/-- **C02, `|`** -/
+theorem or_sound_final (env : Env) (he : EnvTotal env) (fuel : Nat) (a b : M)
     (ha : GAll (Good env) a) (hb : GAll (Good env) b) :
     GAll (Good env) (M.or fuel a b) ∧ sem env (M.or fuel a b) = (sem env a || sem env b) :=
-  or_sound env he (bridge env he hx).1 (bridge env he hx).2 fuel a b ha hb
+  or_sound env he (bridge env he).1 (bridge env he).2 fuel a b ha hb
 
 /-! ### the hypotheses are satisfiable (non-vacuity) -/
 
